@@ -428,6 +428,14 @@ func (c *Check) ruleEnqueueLinkage(rule string, a *stateAnchors) {
 				return (mentionsField(x, a.rbHash) && lastElem(x, a.blocksRequested)) || fieldAddrOf(x) == a.lastSavedHash
 			}, true)
 			ok, w := mustPass(st, g)
+			if !ok && c.lastHashHelperOK(a) {
+				// the same comparison through the State.lastHash helper (checked separately below)
+				g2 := equalEdge(func(x, y ssa.Value) bool {
+					return (derivesFromValue(y, prev) && derivesFromCall(x, "(*state.State).lastHash") != nil) ||
+						(derivesFromValue(x, prev) && derivesFromCall(y, "(*state.State).lastHash") != nil)
+				}, true)
+				ok, w = mustPass(st, g2)
+			}
 			which := "blocksRequested"
 			if f == a.blocksToRequest {
 				which = "blocksToRequest"
@@ -441,6 +449,50 @@ func (c *Check) ruleEnqueueLinkage(rule string, a *stateAnchors) {
 		}
 	}
 	c.Min(rule, "enqueue stores in AddBlockRequest", n, 3)
+}
+
+// lastHashHelperOK: State.lastHash answers the last to-be-requested hash if that queue is non-empty,
+// else the last requested hash if that queue is non-empty, else the last saved hash.
+func (c *Check) lastHashHelperOK(a *stateAnchors) bool {
+	fn := c.P.Fn("state.(*State).lastHash")
+	if fn == nil {
+		return false
+	}
+	nonEmpty := func(f *types.Var) EdgePred {
+		return lowerBoundEdge(func(v ssa.Value) bool { return lenOfField(v, f) }, 1)
+	}
+	empty := func(f *types.Var) EdgePred {
+		return upperBoundEdge(func(v ssa.Value) bool { return lenOfField(v, f) }, 0)
+	}
+	seen := 0
+	for _, ret := range returnsOf(fn) {
+		for _, v := range resultValues(ret, 0) {
+			switch {
+			case lastElem(v, a.blocksToRequest):
+				if ok, _ := mustPass(ret, nonEmpty(a.blocksToRequest)); !ok {
+					return false
+				}
+				seen |= 1
+			case mentionsField(v, a.rbHash) && lastElem(v, a.blocksRequested):
+				ok1, _ := mustPass(ret, nonEmpty(a.blocksRequested))
+				ok2, _ := mustPass(ret, empty(a.blocksToRequest))
+				if !ok1 || !ok2 {
+					return false
+				}
+				seen |= 2
+			case fieldAddrOf(v) == a.lastSavedHash:
+				ok1, _ := mustPass(ret, empty(a.blocksRequested))
+				ok2, _ := mustPass(ret, empty(a.blocksToRequest))
+				if !ok1 || !ok2 {
+					return false
+				}
+				seen |= 4
+			default:
+				return false
+			}
+		}
+	}
+	return seen == 7
 }
 
 func fieldAddrOf(v ssa.Value) *types.Var {
